@@ -30,7 +30,7 @@ Section Proofs.
 
   Lemma oinv_step stmts l s s' : OInv stmts s -> step S l s = Some s' -> OInv stmts s'.
   Proof.
-    intros [Ht Hc Hr] H. destruct s as [td p a sd q dp fd rc oc tm cl]. cbn in *.
+    intros [Ht Hc Hr] H. destruct s as [td p a sd q dp fd rc oc tm cl sp te]. cbn in *.
     destruct l; cbn in H.
     - destruct p; [|discriminate]. destruct td as [|x rest]; [discriminate|]. injection H as <-. cbn.
       symmetry in Ht. destruct (skipn_cons_nth _ _ _ _ Ht) as [A B].
@@ -74,7 +74,7 @@ Section Proofs.
 
   Lemma sinv_step l s s' : no_alarm l -> SInv s -> step S l s = Some s' -> SInv s'.
   Proof.
-    intros Hl [Hc Hr Hp] H. destruct s as [td p a sd q dp fd rc oc tm cl]. cbn in *.
+    intros Hl [Hc Hr Hp] H. destruct s as [td p a sd q dp fd rc oc tm cl sp te]. cbn in *.
     destruct l; cbn in H.
     - destruct p; [|discriminate]. destruct td as [|x rest]; [discriminate|]. injection H as <-.
       constructor; cbn; rewrite ?app_length; cbn; try lia; try (destruct Hp; repeat split; try lia; discriminate).
@@ -129,7 +129,7 @@ Section Proofs.
   (* ---------------- errors surface ---------------- *)
   Lemma stored_kept l s s' : step S l s = Some s' -> stored S s = true -> l <> Return -> stored S s' = true.
   Proof.
-    intros H Hs Hl. destruct s as [td p a sd q dp fd rc oc tm cl]. cbn in *. subst sd.
+    intros H Hs Hl. destruct s as [td p a sd q dp fd rc oc tm cl sp te]. cbn in *. subst sd.
     destruct l; cbn in H; try congruence.
     - destruct p; [|discriminate]. destruct td; [discriminate|]. injection H as <-. reflexivity.
     - destruct q; [discriminate|]. injection H as <-. reflexivity.
@@ -148,13 +148,13 @@ Section Proofs.
   Proof.
     intros Hf Hr Hrun Hnr Hret.
     assert (Hs2 : stored S s2 = true).
-    { destruct s1 as [td p a sd q dp fd rc oc tm cl]. cbn in *. subst fd. injection Hr as <-. reflexivity. }
+    { destruct s1 as [td p a sd q dp fd rc oc tm cl sp te]. cbn in *. subst fd. injection Hr as <-. reflexivity. }
     assert (Hs3 : stored S s3 = true).
     { clear Hret Hr Hf. revert s2 Hs2 Hrun. induction ls as [|l ls IH]; intros s2 Hs2 Hrun; cbn in Hrun; [injection Hrun as <-; exact Hs2|].
       destruct (step S l s2) as [sx|] eqn:E; [|discriminate].
       apply (IH ltac:(intros X; apply Hnr; right; exact X) sx); [|exact Hrun].
       eapply stored_kept; eauto. intros ->. apply Hnr. left. reflexivity. }
-    destruct s3 as [td p a sd q dp fd rc oc tm cl]. cbn in *. subst sd.
+    destruct s3 as [td p a sd q dp fd rc oc tm cl sp te]. cbn in *. subst sd.
     destruct p; [discriminate|]. destruct a; [|discriminate]. destruct td; [discriminate|]. injection Hret as <-. cbn. eexists. reflexivity.
   Qed.
 
@@ -162,8 +162,78 @@ Section Proofs.
   Theorem raises_only_on_error s s' : step S Return s = Some s' -> stored S s = false ->
     exists pre, outcomes S s' = pre ++ [Returned].
   Proof.
-    intros H Hs. destruct s as [td p a sd q dp fd rc oc tm cl]. cbn in *. subst sd.
+    intros H Hs. destruct s as [td p a sd q dp fd rc oc tm cl sp te]. cbn in *. subst sd.
     destruct p; [discriminate|]. destruct a; [|discriminate]. destruct td; [discriminate|]. injection H as <-. cbn. eexists. reflexivity.
+  Qed.
+  (* ---------------- readings are available when write() returns ---------------- *)
+  Fixpoint wf (t : nat) (ls : list line) (ss : list nat) : Prop :=
+    match ls, ss with
+    | [], [] => True
+    | l :: ls', k0 :: ss' => k0 = t /\ wf (match l with LStatus => t | _ => Datatypes.S t end) ls' ss'
+    | _, _ => False
+    end.
+
+  Lemma wf_app : forall ls ss t l, wf t ls ss -> wf t (ls ++ [l]) (ss ++ [(t + nterm ls)%nat]).
+  Proof.
+    induction ls as [|x ls IH]; intros [|k0 ss] t l H; cbn in H; try contradiction.
+    - cbn. split; [unfold nterm; cbn; lia|exact I].
+    - destruct H as [-> H]. cbn [app wf]. split; [reflexivity|].
+      replace (t + nterm (x :: ls))%nat with ((match x with LStatus => t | _ => Datatypes.S t end) + nterm ls)%nat
+        by (unfold nterm; destruct x; cbn; lia).
+      apply IH. exact H.
+  Qed.
+
+  Lemma wf_ge : forall ls ss t, wf t ls ss -> Forall (fun k0 => (t <= k0)%nat) ss.
+  Proof.
+    induction ls as [|x ls IH]; intros [|k0 ss] t H; cbn in H; try contradiction; [constructor|].
+    destruct H as [-> H]. constructor; [lia|]. eapply Forall_impl; [|apply (IH _ _ H)]. cbn. intros a Ha. destruct x; lia.
+  Qed.
+
+  Lemma wf_init k : forall t, wf t (repeat LOk k) (seq t k).
+  Proof. induction k as [|k IH]; intros t; cbn; [exact I|]. split; [reflexivity|apply IH]. Qed.
+
+  Record RInv (s : st) : Prop := {
+    r_wf : wf (termd S s) (from_dev S s) (stamps S s);
+    r_emit : temitted S s = (termd S s + nterm (from_dev S s))%nat
+  }.
+
+  Lemma rinv_init stmts k : RInv (init S stmts k).
+  Proof.
+    constructor; cbn; [apply wf_init|]. unfold nterm. induction k as [|k IH]; [reflexivity|]. cbn. cbn in IH. lia.
+  Qed.
+
+  Lemma rinv_step l s s' : RInv s -> step S l s = Some s' -> RInv s'.
+  Proof.
+    intros [Hw He] H. destruct s as [td p a sd q dp fd rc oc tm cl sp te]. cbn in *.
+    destruct l; cbn in H.
+    - destruct p; [|discriminate]. destruct td; [discriminate|]. injection H as <-. constructor; assumption.
+    - destruct p; [discriminate|]. destruct a; [|discriminate]. destruct td; [discriminate|]. injection H as <-. constructor; assumption.
+    - destruct q; [discriminate|]. injection H as <-. constructor; assumption.
+    - destruct dp; [discriminate|]. injection H as <-. constructor; cbn -[nterm].
+      + rewrite He. apply wf_app. exact Hw.
+      + rewrite nterm_app, He. destruct err; unfold nterm; cbn; lia.
+    - injection H as <-. constructor; cbn -[nterm].
+      + rewrite He. apply wf_app. exact Hw.
+      + rewrite nterm_app, He. unfold nterm; cbn; lia.
+    - injection H as <-. constructor; cbn -[nterm].
+      + rewrite He. apply wf_app. exact Hw.
+      + rewrite nterm_app, He. unfold nterm; cbn; lia.
+    - destruct fd as [|[| |] rest]; [discriminate| | |]; injection H as <-; destruct sp as [|k0 sp]; cbn in Hw; try contradiction;
+        destruct Hw as [_ Hw]; constructor; cbn; try exact Hw; unfold nterm in *; cbn in *; lia.
+  Qed.
+
+  (* READINGS: from a quiescent start, without unsolicited error lines: when write() number i returns, every line still on
+     its way to the reader was emitted by the device AFTER the terminator of statement i -- so every line the device
+     sent before acknowledging (a reading requested by the statement, or the ok line itself) has been handled *)
+  Theorem readings_available stmts ls s s' : Forall no_alarm ls -> run S ls (init S stmts 0) = Some s ->
+    step S Return s = Some s' -> Forall (fun k0 => (Datatypes.S (length (outcomes S s)) <= k0)%nat) (stamps S s).
+  Proof.
+    intros Hls H Hs. destruct (return_after_own_ack stmts ls s s' Hls H Hs) as [Ht _].
+    assert (RInv s) as [Hw _].
+    { clear Hs Ht Hls. revert H. generalize (rinv_init stmts 0). generalize (init S stmts 0).
+      induction ls as [|l ls IH]; intros s0 Hi H; cbn in H; [injection H as <-; exact Hi|].
+      destruct (step S l s0) as [s1|] eqn:E; [|discriminate]. apply (IH s1); [eapply rinv_step; eauto|exact H]. }
+    rewrite <- Ht. eapply wf_ge. exact Hw.
   Qed.
 End Proofs.
 
